@@ -52,6 +52,12 @@ class Taint:
         self.rd = ReachingDefs(self.g)
         self.secret_params = set(secret_params)
         self.memo = {}
+        # locals into which a message / structure is encoded: X in `<obj>.write(X, ...)` where X is a local stream object
+        self.encoded = set()
+        for c in walk_local(fn):
+            if isinstance(c, ast.Call) and isinstance(c.func, ast.Attribute) and c.func.attr == 'write' and c.args and isinstance(c.args[0], ast.Name) \
+                    and not (isinstance(c.func.value, ast.Name) and c.func.value.id in ('sys', 'f', 'fh', 'fd')) and (c.keywords or len(c.args) > 1 or 'stream' in c.args[0].id or 'data' in c.args[0].id or 'buffer' in c.args[0].id):
+                self.encoded.add(c.args[0].id)
 
     def var(self, node, name, depth=0):
         key = (node.id, name)
@@ -59,6 +65,8 @@ class Taint:
             return self.memo[key]
         self.memo[key] = []
         out = []
+        if name in self.encoded:
+            out.append('%s holds an encoded message (its str/format is the hex of the buffer)' % name)
         if depth < 8:
             for var, val, dn in self.rd.reaching(node, name):
                 if dn is None:
